@@ -29,5 +29,6 @@ pub mod prelude {
         Addr, Binary, Coin, Deps, DepsMut, Empty, Env, MessageInfo, Reply, Response, StdError,
         StdResult, SubMsgResult, Uint128,
     };
+    pub use sylvia::cw_utils::MsgInstantiateContractResponse;
     pub use sylvia::types::{CustomMsg, CustomQuery};
 }
